@@ -169,6 +169,14 @@ func (vc *VC) loopHead(fr *Frame, blk *ssa.BasicBlock, ins []*Edge, name string)
 		vc.declare("allocmono!"+key, "Bool")
 		n.assume(fmt.Sprintf("(forall ((r Int)) (=> (select %s r) (select %s r)))", vc.cur(pre.env, "alloc"), vc.cur(n.env, "alloc")))
 	}
+	// locks are balanced per iteration: the lock state at the head equals the lock state at loop entry
+	// (asserted on every back edge as obligation lock/loop-balanced, assumed here)
+	if vc.loopMods[key]["LockSt"] {
+		if _, ok := vc.svars["LockSt"]; ok {
+			n.assume(sEq(vc.cur(n.env, "LockSt"), vc.cur(pre.env, "LockSt")))
+			vc.headLock[key] = pre.env["LockSt"]
+		}
+	}
 	if fr.isRoot && fr.frame != nil && fr.frame.explicit {
 		for _, k := range mods {
 			if _, ok := vc.svars[k]; ok && vc.framedVar(fr, k) {
@@ -228,6 +236,13 @@ func (vc *VC) specError(c *Clause, err error) {
 }
 
 func (vc *VC) loopInvariants(fr *Frame, blk *ssa.BasicBlock, at *Node, e *Edge, phase string) {
+	if phase == "preserve" {
+		if v, ok := vc.headLock[vc.loopKey(fr, blk)]; ok && vc.lockOn {
+			ob := vc.newObl(fmt.Sprintf("%s/loop#%d/lock/loop-balanced", relKey(fr.fn), fr.loopOrd[blk]), "lock", vc.lockTags, "every iteration leaves the lock state as it found it", token.NoPos)
+			ob.Loc = fmt.Sprintf("e%d.lockbal.%d", at.id, len(at.out))
+			e.asserts = append(e.asserts, Cmd{Assert: true, F: sEq(vc.cur(at.env, "LockSt"), verName("LockSt", v)), Ob: ob})
+		}
+	}
 	if phase == "preserve" && fr.isRoot && fr.frame != nil && fr.frame.explicit {
 		// implicit frame invariant: the loop body changes only what `modifies` allows
 		var mods []string
@@ -1277,8 +1292,12 @@ func (vc *VC) execNext(fr *Frame, n *Node, nx *ssa.Next) {
 			m := vc.val(fr, rng.X)
 			dom, val := vc.mapMaps(mt)
 			vc.guardCheckMap(fr, n, rng.X, false, nx.Pos())
-			n.assume(sImp(okc, sAnd(sNot(sEq(m, "0")), app("select", app("select", vc.cur(n.env, dom.Name), m), k))))
-			n.assume(sImp(okc, sEq(v, app("select", app("select", vc.cur(n.env, val.Name), m), k))))
+			if b, isB := tup.At(1).Type().(*types.Basic); !(isB && b.Kind() == types.Invalid) {
+				n.assume(sImp(okc, sAnd(sNot(sEq(m, "0")), app("select", app("select", vc.cur(n.env, dom.Name), m), k))))
+			}
+			if b, isB := tup.At(2).Type().(*types.Basic); !(isB && b.Kind() == types.Invalid) {
+				n.assume(sImp(okc, sEq(v, app("select", app("select", vc.cur(n.env, val.Name), m), k))))
+			}
 			// an empty or nil map yields nothing
 			n.assume(sImp(sOr(sEq(m, "0"), sEq(app("select", vc.cur(n.env, vc.mapLenOf(mt).Name), m), "0")), sNot(okc)))
 		}
